@@ -283,6 +283,61 @@ func (v *Verifier) verifyFunc(c *Contract) *FuncReport {
 		o.Parts = parts
 	}
 	// vacuity canary: some return point must be reachable under the preconditions
+	// frame: a function declared pure (or with a modifies list) changes nothing the
+	// caller can see outside that list: heap arrays agree with their entry version
+	// at every reference that existed at entry.
+	if c.Pure || len(c.Modifies) > 0 {
+		touched := map[string]bool{}
+		for _, rp := range x.rets {
+			for k, t := range rp.st {
+				if x.init[k] != t {
+					touched[k] = true
+				}
+			}
+		}
+		var names []string
+		for k := range touched {
+			names = append(names, k)
+		}
+		sort.Strings(names)
+		a0 := x.init["alloc"]
+		for _, k := range names {
+			if k == "alloc" || strings.HasPrefix(k, "cell.") || strings.HasPrefix(k, "fv.") {
+				continue
+			}
+			allowed := false
+			for _, m := range c.Modifies {
+				if strings.HasPrefix(k, m) {
+					allowed = true
+				}
+			}
+			if allowed {
+				continue
+			}
+			var parts []obPart
+			for _, rp := range x.rets {
+				fin, ok := rp.st[k]
+				if !ok || fin == x.init[k] {
+					continue
+				}
+				var g Term
+				if strings.HasPrefix(k, "G.") {
+					g = eq(fin, x.init[k])
+				} else {
+					g = fmt.Sprintf("(forall ((r Int)) (=> (and (<= 0 r) (< r %s)) (= (select %s r) (select %s r))))", a0, fin, x.init[k])
+				}
+				var anc map[int]bool
+				if rp.blk != nil {
+					anc = ancestors(rp.blk)
+				}
+				parts = append(parts, obPart{Goal: implies(rp.reach, g), Anc: anc})
+			}
+			if len(parts) > 0 {
+				o := x.obligeNoAssume("frame", "frame:"+k, "true", "unchanged at pre-existing references: "+k, fn)
+				o.Parts = parts
+			}
+		}
+	}
 	if len(x.rets) > 0 {
 		can := &Oblig{Name: x.V.funcKey(fn) + "#canary", Func: x.V.funcKey(fn), Kind: "canary", NLines: len(x.smt.lines), ex: x, Canary: true, Props: c.Props}
 		for _, rp := range x.rets {
